@@ -191,6 +191,13 @@ zst_leaf!(Z3, 3, Write<'a, R4>, |d, b| { b.write(Slot::new(4, 0), &mut *d); });
 zst_leaf!(Z4, 4, (Read<'a, R0>, Read<'a, R5>), |d, b| { b.read(Slot::new(0, 0), &*d.0); b.read(Slot::new(5, 0), &*d.1); });
 zst_leaf!(Z5, 5, Write<'a, R6>, |d, b| { b.write(Slot::new(6, 0), &mut *d); });
 
+/// A user's own zero-sized system that happens to be called `Nil` (the library's list terminator
+/// of that name is private).
+pub mod list {
+    use super::*;
+    zst_leaf!(Nil, 5, Write<'a, R6>, |d, b| { b.write(Slot::new(6, 0), &mut *d); });
+}
+
 fn build_zst(z: u8) -> Boxed {
     match z {
         0 => Boxed(Box::new(Z0)),
@@ -636,7 +643,7 @@ fn static_tree_case(rng: &mut Rng, pools: &mut std::collections::HashMap<usize, 
         Z_UID[z].store(z as u32 + 1, SeqCst);
         Z_OBS[z].store(0, SeqCst);
     }
-    let which = rng.below(9);
+    let which = rng.below(11);
     let built: Result<(TNode, Boxed), _> = catch_unwind(AssertUnwindSafe(|| match which {
         0 => (TNode::Seq(vec![zl(0), zl(1), zl(3)]), Boxed(Box::new(seq![Z0, Z1, Z3,]))),
         1 => (TNode::Par(vec![zl(0), zl(1), zl(3)]), Boxed(Box::new(par![Z0, Z1, Z3,]))),
@@ -655,7 +662,9 @@ fn static_tree_case(rng: &mut Rng, pools: &mut std::collections::HashMap<usize, 
             TNode::Par(vec![TNode::Leaf(ha.clone()), TNode::Seq(vec![zl(2), TNode::Leaf(hb.clone()), zl(5)])]),
             Boxed(Box::new(par![HSys::new(&ha, &ctx), seq![Z2, HSysD::new(&hb, &ctx), Z5,],])),
         ),
-        _ => (TNode::Seq(vec![zl(4), zl(3), zl(2), zl(1), zl(5)]), Boxed(Box::new(seq![Z4, Z3, Z2, Z1, Z5,]))),
+        8 => (TNode::Seq(vec![zl(4), zl(3), zl(2), zl(1), zl(5)]), Boxed(Box::new(seq![Z4, Z3, Z2, Z1, Z5,]))),
+        9 => (TNode::Par(vec![zl(0), zl(5), zl(3)]), Boxed(Box::new(par![Z0, list::Nil, Z3,]))),
+        _ => (TNode::Seq(vec![zl(1), TNode::Par(vec![zl(3), zl(5)])]), Boxed(Box::new(seq![Z1, par![Z3, list::Nil,],]))),
     }));
     rep.evaluations += 1;
     rep.metric("statically_typed_trees", 1);
